@@ -507,6 +507,37 @@ func (g *Graph) RangeBlocks(rs *ast.RangeStmt) (loop, body, done *cfg.Block) {
 	return
 }
 
+// ForIterationEnds lists the sites at which an iteration of the `for` statement ends and the next begins: the ends of
+// the blocks inside the loop that jump back to its head (the post statement's block, the condition's block, or - for a
+// bare `for {}` - the first block of the body).
+func (g *Graph) ForIterationEnds(fs *ast.ForStmt) []Site {
+	var head *cfg.Block
+	for _, k := range []cfg.BlockKind{cfg.KindForPost, cfg.KindForLoop, cfg.KindForBody} {
+		for _, b := range g.C.Blocks {
+			if b.Stmt == ast.Stmt(fs) && b.Kind == k && head == nil {
+				head = b
+			}
+		}
+	}
+	if head == nil {
+		return nil
+	}
+	var out []Site
+	for _, p := range g.Preds()[head] {
+		if !p.Live {
+			continue
+		}
+		inside := p.Stmt == ast.Stmt(fs) && p.Kind != cfg.KindForBody || (len(p.Nodes) > 0 && Encloses(fs.Body, p.Nodes[0])) || (p.Stmt != nil && p.Stmt != ast.Stmt(fs) && Encloses(fs.Body, p.Stmt))
+		if p == head && len(p.Nodes) > 0 {
+			inside = true
+		}
+		if inside {
+			out = append(out, Site{G: g, B: p, I: len(p.Nodes)})
+		}
+	}
+	return out
+}
+
 // LoopForall decides the "for all elements" shape: every path from the body
 // entry of the range loop back to the loop head takes an edge implying the
 // guard (an element that fails the check leaves the loop or the function), and
